@@ -332,6 +332,7 @@ def build() -> Check:
             "C11 generators) to a fresh AutoDecoder or after 1..3 same-meter same-form messages: decoded by that meter's decoder with the "
             "C07-C09 expected values. Non-trivial = history with >=2 different meters or a junk payload between two genuine ones "
             "(genuine clause: history length >= 1)."
+            " Message form p1: the payload as the data block of a caller-built DataReadout given to decode_message (the model's P1 entry is then decode_p1_readout on an equal readout; a twin AutoDecoder gets an equal object)."
         ),
         assumptions=[
             "The model calls han's individual decoder functions; C12 is about the selection logic, the decoders' values are C07-C09/C11's subject (re-checked in the genuine clause with the harness's expected dictionaries).",
